@@ -113,3 +113,34 @@ Theorem c10_mutation_publish_order_is_source :
   count_occ string_dec (call_list "Collection.Delete") "t.rootCAS" = 1%nat.
 Proof. exact Decisions.mutation_publish_order. Qed.
 Print Assumptions c10_mutation_publish_order_is_source.
+
+(* the version protocol in the source, statement by statement: rootCAS (Proto mcas), rootDecRef, closeCollection (Proto close) *)
+Theorem c10_protocol_functions_are_source :
+  body "Collection.rootCAS" =
+    [SExpr (GCall "t.rootLock.Lock" []);
+     SDefer (GCall "t.rootLock.Unlock" []);
+     SIf [] (GBin "!=" (GVar "t.root") (GVar "prev")) [SReturn [GVar "false"]] [];
+     SAssign [GVar "t.root"] "=" [GVar "next"];
+     SIf [] (GBin "!=" (GVar "prev") GNil) [SAssign [GVar "prev.superseded"] "=" [GVar "true"]] [];
+     SIf [] (GBin "&&" (GBin "!=" (GVar "prev") GNil) (GBin ">" (GVar "prev.refs") (GInt 2)))
+       [SIf [] (GBin "||" (GBin "!=" (GVar "prev.chainedCollection") GNil) (GBin "!=" (GVar "prev.chainedRootNodeLoc") GNil))
+          [SExpr (GCall "panic" [GCall "fmt.Sprintf" [GLit """chain already taken, coll: %v"""; GCall "t.Name" []]])] [];
+        SAssign [GVar "prev.chainedCollection"] "=" [GVar "t"];
+        SAssign [GVar "prev.chainedRootNodeLoc"] "=" [GVar "t.root"];
+        SIncDec (GVar "t.root.refs") true] [];
+     SReturn [GVar "true"]] /\
+  body "Collection.rootDecRef" =
+    [SExpr (GCall "t.rootLock.Lock" []);
+     SExpr (GCall "freeNodeLock.Lock" []);
+     SExpr (GCall "t.rootDecRefUnlocked" [GVar "r"]);
+     SExpr (GCall "freeNodeLock.Unlock" []);
+     SExpr (GCall "t.rootLock.Unlock" [])] /\
+  body "Collection.closeCollection" =
+    [SIf [] (GBin "==" (GVar "t") GNil) [SReturn []] [];
+     SExpr (GCall "t.rootLock.Lock" []);
+     SAssign [GVar "r"] ":=" [GVar "t.root"];
+     SAssign [GVar "t.root"] "=" [GNil];
+     SExpr (GCall "t.rootLock.Unlock" []);
+     SIf [] (GBin "!=" (GVar "r") GNil) [SExpr (GCall "t.rootDecRef" [GVar "r"])] []].
+Proof. exact Decisions.protocol_functions. Qed.
+Print Assumptions c10_protocol_functions_are_source.
